@@ -755,6 +755,21 @@ fn decode<'a>(codec: &Codec, sections: &[&'a dyn Data<'a>]) -> BoxedData<'a> {
                     lz4::decode::<u8>(&mut lz4::decoder(arg0.cast_ref_u8()), &mut decoded);
                     Box::new(decoded) as BoxedData
                 }
+                EncodingType::U16 => {
+                    let mut decoded = vec![0; *count];
+                    lz4::decode::<u16>(&mut lz4::decoder(arg0.cast_ref_u8()), &mut decoded);
+                    Box::new(decoded)
+                }
+                EncodingType::U32 => {
+                    let mut decoded = vec![0; *count];
+                    lz4::decode::<u32>(&mut lz4::decoder(arg0.cast_ref_u8()), &mut decoded);
+                    Box::new(decoded)
+                }
+                EncodingType::U64 => {
+                    let mut decoded = vec![0; *count];
+                    lz4::decode::<u64>(&mut lz4::decoder(arg0.cast_ref_u8()), &mut decoded);
+                    Box::new(decoded)
+                }
                 EncodingType::I64 => {
                     let mut decoded = vec![0; *count];
                     lz4::decode::<i64>(&mut lz4::decoder(arg0.cast_ref_u8()), &mut decoded);
